@@ -191,7 +191,8 @@ def run(s):
                         return r
             return core.proved("symnp", "%d (size, order) cases with symbolic tables: one interpolant over (flip ln V, flip ln omega) of the same (thinned) "
                                         "volumes; outputs exp(I), -I', -I'' at ln v" % n)
-        s.oblige("C11.triple[%s]" % method, ob, [MG + ("interpolate_mode_%s" % (method if method in ("spline", "lagrange", "krogh") else "ppoly"))])
+        s.oblige("C11.triple[%s]" % method, ob, [MG + ("interpolate_mode_%s" % (method if method in ("spline", "lagrange", "krogh") else "ppoly"))],
+                 fallback=lambda method=method: native_triple(mg, method, extended=True))
 
     def lsq_triple():
         n = 0
@@ -262,22 +263,32 @@ def run(s):
     s.min_obligations = 16
 
 
-def native_triple(mg, method):
-    """real scipy/numpy: gamma = -dln w/dln V and V dgamma/dV by finite differences of the returned frequency"""
+def native_triple(mg, method, extended=False):
+    """real scipy/numpy: gamma = -dln w/dln V and V dgamma/dV by finite differences of the returned frequency.  extended: on the volume grid expanded by the usual ratio 1.2
+    beyond the sampled volumes (where the calculation evaluates the triple); Akima is NaN there and Hermite cannot be constructed (known findings with their own obligations)"""
     V = numpy.linspace(900, 500, 9)
     W = 300.0 * (V / 700.0) ** -1.3 * numpy.exp(-0.4 * numpy.log(V / 700.0) ** 2)
-    grid = numpy.linspace(520, 880, 400)
+    grid = numpy.linspace(500 / 1.2, 900 * 1.2, 600) if (extended and method != "akima") else numpy.linspace(520, 880, 400)
     try:
         with warnings.catch_warnings():
             warnings.simplefilter("ignore")
-            w, g, dg = call_method(mg, method, V, W, grid, 3)
+            w, g, dg = call_method(mg, method, V, W, grid, 9 if method == "akima" else 3)          # Akima: all nine volumes as nodes, grid inside them
     except Exception as e:
+        if extended and method == "hermite" and isinstance(e, TypeError):
+            return {"reproduced": False, "note": "hermite cannot be constructed (known finding, obligation C11.constructible[hermite])"}
         return {"reproduced": True, "raised": repr(e)}
     lnv, lnw = numpy.log(grid), numpy.log(w)
     g_fd = -numpy.gradient(lnw, lnv)
     dg_fd = numpy.gradient(g, lnv)
-    bad = not (numpy.allclose(g[5:-5], g_fd[5:-5], atol=2e-3) and numpy.allclose(dg[10:-10], dg_fd[10:-10], atol=5e-2))
-    return {"reproduced": bool(bad), "max_gamma_dev": float(numpy.abs(g - g_fd)[5:-5].max()), "max_dgamma_dev": float(numpy.abs(dg - dg_fd)[10:-10].max())}
+    # piecewise interpolants have a discontinuous second (pchip, akima: also a kinked first) derivative at their nodes: finite differences are compared away from every sampled volume
+    h = abs(lnv[1] - lnv[0])
+    away = numpy.all(numpy.abs(lnv[:, None] - numpy.log(V)[None, :]) > 3 * h, axis=1)
+    in1, in2 = away.copy(), away.copy()
+    in1[:5] = in1[-5:] = False
+    in2[:10] = in2[-10:] = False
+    bad = not (numpy.all(numpy.isfinite(w)) and numpy.allclose(g[in1], g_fd[in1], atol=2e-3) and numpy.allclose(dg[in2], dg_fd[in2], atol=5e-2))
+    return {"reproduced": bool(bad), "max_gamma_dev": float(numpy.abs(g - g_fd)[in1].max()), "max_dgamma_dev": float(numpy.abs(dg - dg_fd)[in2].max()),
+            "grid": "extended by the ratio 1.2" if extended and method != "akima" else "inside the sampled volumes"}
 
 
 def call_method(mg, method, V, W, grid, order):
